@@ -963,7 +963,8 @@ class CacheCheck(Check):
                 'index of the base schedule, timed delays and garbage collections injected at source lines, and (C01, C06) '
                 'batches of free-running real-thread executions (Engine B); value domain: 8 % None results, 25 % (C05, C06) failures that '
                 'are BaseException but not Exception, 15 % keys spelled 1 / 1.0 / True per caller, 15 % computations that take a while '
-                'to unwind after cancellation, life-cycle with an in-loop shutdown; distinct = '
+                'to unwind after cancellation, life-cycle with an in-loop shutdown, (C05, C06) recording mappings that refuse a store, '
+                'functions that start a helper which asks the cache for the same key; distinct = '
                 'distinct (case, sequence of baton moves). ')
         return base + {
             'C01': 'non-trivial = >=2 callers of one key pending at once AND the baton moved inside _wrapper',
